@@ -446,7 +446,9 @@ def resolve_callable(folder: Folder, fi: FuncInfo, expr: ast.AST, defs: dict[str
         elif isinstance(target, ast.Attribute) and isinstance(target.value, ast.Name) and target.value.id in ("self", "cls"):
             cls = fi.cls if fi.cls is not None else (fi.outer.cls if fi.outer is not None else None)
             callee = folder.prog.resolve_method(cls, target.attr) if cls is not None else None
-            ps = _params_of(callee.node)[1:] if callee is not None else []
+            ps = _params_of(callee.node) if callee is not None else []
+            if callee is not None and not any(isinstance(d, ast.Name) and d.id == "staticmethod" for d in callee.node.decorator_list):
+                ps = ps[1:]
         if callee is None:
             raise AnalysisError(f"cannot resolve the function bound by `{txt(expr)}` in {fi.qual}")
         binds: dict[str, ast.AST] = {p: deref(a, defs) for p, a in zip(ps, e.args[1:])}
@@ -685,6 +687,25 @@ def test_edges(cfg: CFG, within: set[int] | None = None) -> list[tuple[Edge, ast
         for m, lab in cfg.succ[n.id]:
             if lab in ("true", "false"):
                 out.append(((n.id, m, lab), test, lab == "false"))
+    # `match S: case V: ...` — a value (or or-of-values) pattern without guard is the test `S == V` / `S in (..)`
+    subjects = {id(c): n.ast.subject for n in cfg.nodes if n.kind == "match" and n.ast is not None for c in n.ast.cases}  # type: ignore[attr-defined]
+    for n in cfg.nodes:
+        if n.kind != "case" or n.ast is None or (within is not None and n.id not in within) or id(n.ast) not in subjects:
+            continue
+        case = n.ast
+        pat = case.pattern  # type: ignore[attr-defined]
+        values = [pat] if isinstance(pat, ast.MatchValue) else (list(pat.patterns) if isinstance(pat, ast.MatchOr) else [])
+        if case.guard is not None or not values or not all(isinstance(v, ast.MatchValue) for v in values):  # type: ignore[attr-defined]
+            continue
+        subj = subjects[id(case)]
+        if len(values) == 1:
+            test = ast.Compare(left=subj, ops=[ast.Eq()], comparators=[values[0].value])
+        else:
+            test = ast.Compare(left=subj, ops=[ast.In()], comparators=[ast.Tuple(elts=[v.value for v in values], ctx=ast.Load())])
+        test = ast.fix_missing_locations(ast.copy_location(test, case.pattern))  # type: ignore[attr-defined]
+        for m, lab in cfg.succ[n.id]:
+            if lab in ("case", "nocase"):
+                out.append(((n.id, m, lab), test, lab == "nocase"))
     return out
 
 
@@ -949,6 +970,9 @@ class DupFree:
                 if f.id in fn.module.functions:
                     return self.returns(fn.module.functions[f.id], depth)
                 return None
+            if txt(f) in ("functools.reduce", "reduce") and len(e.args) == 3 and txt(e.args[2]) in ("set()", "frozenset()") \
+                    and txt(e.args[0]) in ("set.union", "frozenset.union", "operator.or_", "or_"):
+                return True  # folding set union from an empty set yields a set
             if isinstance(f, ast.Attribute):
                 if f.attr in ("keys", "items") and not e.args and not e.keywords:
                     return True  # views of a mapping: its keys are unique whatever it was built from
